@@ -9,6 +9,7 @@ CONSTANTS
   DSet = {}
   SliceSet = {}
   SortCols = {}
+  SeedSet = {0}
   DoEmit = FALSE
   PropOnly = FALSE
 CONSTRAINT Diag
